@@ -16,9 +16,21 @@ IGN = {"from", "from_re", "into", "clone", "deref", "deref_mut", "borrow", "as_r
        "drop", "unwrap", "expect", "fmt", "new_display", "new_debug", "to_string"}
 
 
-def signature(b):
-    """sequence of callee names, float-typed MIR operators and float constants (index / integer arithmetic, conversions,
-    iterator plumbing and error plumbing are left out)"""
+def _scalar_lookup(b, t):
+    """index / index_mut that yields a number (an element of a parameter or density array); looking up a *record* in a list
+    (`a.sites_a[0]`) is addressing, and how often it is spelled out is not part of the computation"""
+    ty = b.lty(t["dest"]["l"]) or {}
+    k = ty.get("k", "")
+    while k.startswith("ref:"):
+        k = k[4:]
+    return not k.startswith("adt:") or bool(ty.get("dual")) or bool(ty.get("f64"))
+
+
+def signature(b, F=None, depth=0, members=frozenset()):
+    """sequence of callee names, float-typed MIR operators and float constants (integer arithmetic, conversions,
+    iterator plumbing and error plumbing are left out).  Calls of small private helpers of the same crate are replaced by
+    the helper's own signature, so that extracting a repeated sub-expression into a helper in one clone only keeps the
+    clones in agreement (the computation is compared, not its division into functions)."""
     out = []
     for blk in b.blocks:
         if blk["cleanup"]:
@@ -39,6 +51,13 @@ def signature(b):
         t = blk["term"]
         if t["k"] == "call" and not t.get("exp"):
             n = callee(t)[2]
+            if n in ("index", "index_mut") and not _scalar_lookup(b, t):
+                continue
+            cb = F.callee_body(t) if F is not None and depth < 2 else None
+            if cb is not None and not cb.is_closure() and cb.get("vis") != "Public" and len(cb.blocks) <= 12 \
+                    and cb.path.split("::")[0] == b.path.split("::")[0] and cb.path not in members and cb.path != b.path:
+                out.extend(signature(cb, F, depth + 1, members))
+                continue
             if n and n not in IGN:
                 out.append(n)
                 for a in t["args"]:
@@ -52,6 +71,7 @@ def run(F, want=None):
     with open(TABLE, "rb") as fh:
         tab = tomllib.load(fh)
     n_groups = 0
+    ALL_MEMBERS = frozenset(b.path for g in tab["group"] for suf in g["members"] for b in F.bodies if b.path.endswith(suf))
     for g in tab["group"]:
         if want and not any(w in g["name"] for w in want):
             continue
@@ -59,7 +79,7 @@ def run(F, want=None):
         for suf in g["members"]:
             bs = [b for b in F.bodies if b.path.endswith(suf)]
             if bs:
-                members.append((suf, bs[0], signature(bs[0])))
+                members.append((suf, bs[0], signature(bs[0], F, 0, ALL_MEMBERS)))
         iid = "clones|%s" % g["name"]
         if len(members) < 2:
             if F.config == "full":
@@ -79,7 +99,7 @@ def run(F, want=None):
                 for suf, b, s in members:
                     if s != major and "::{closure#" in suf:
                         parent = b.path.rsplit("::{closure#", 1)[0]
-                        alt = [c for c in F.bodies if c.path.startswith(parent + "::{closure#") and signature(c) == major]
+                        alt = [c for c in F.bodies if c.path.startswith(parent + "::{closure#") and signature(c, F, 0, ALL_MEMBERS) == major]
                         if alt:
                             b, s = alt[0], major
                     fixed.append((suf, b, s))
